@@ -119,6 +119,33 @@ def run(ctx):
             fam = family(case, mn, {**pp, "r": pm.get("r", [])}, ps, fields)
             ctx.report(["py", fam] if fam == "instruction_overwrites_BP_PX_PY_it_addresses_with" else ["py", fam, mn], f"{mn} ({case[0]} at {case[1]:#x}): Python result differs from the documented effect in {fields}",
                        {"case": "exec_py " + l, "python": p[:400], "documented": sp[:400], "fields": fields})
+    # long counted runs, on the implementation only
+    longs = execgen.long_cases(rng, ctx.tier)
+    lo = corr.run_streams(ctx, cpu.wire([c for c, _, _ in longs]), {"py": ("py", "exec1")})["py"]
+    for (case, ptr, oplen), ans in zip(longs, lo):
+        ctx.evaluations += 1
+        pp = cpu.parse(ans)
+        if pp is None:
+            ctx.report(["py", "long_run_not_executed"], f"{case[0]} with I={case[2]['I']:#x}: {ans[:80]}", {"case": "exec1 " + execgen.fmt(case)})
+            continue
+        ctx.traces += 1
+        ctx.nontrivial.add("long:" + execgen.fmt(case)[:80])
+        n = case[2]["I"]
+        nbytes = {"e3": 3, "eb": 3, "d3": 5, "db": 5, "cb": 3, "cf": 3}[case[0][:2]]
+        bad = []
+        if pp["i"] != 0:
+            bad.append(f"I = {pp['i']:#x} afterwards (documented: 0)")
+        if pp["pc"] != (case[1] + nbytes) & 0xFFFFF:
+            bad.append(f"PC = {pp['pc']:#x}")
+        if ptr and pp[ptr.lower()] != (case[2][ptr] + n) & 0xFFFFF:
+            bad.append(f"{ptr} = {pp[ptr.lower()]:#x}, expected {case[2][ptr] + n:#x}")
+        if len(pp["w"]) != min(n, 256) and case[0][:2] in ("e3", "d3", "cb", "cf"):
+            bad.append(f"{len(pp['w'])} distinct internal bytes written, expected {min(n, 256)}")
+        if len(pp["w"]) != n and case[0][:2] in ("eb", "db"):
+            bad.append(f"{len(pp['w'])} external bytes written, expected {n}")
+        if bad:
+            ctx.report(["py", "long_counted_run_cut_short_or_overrun"], f"{case[0][:6]} with I={n:#x}: " + "; ".join(bad), {"case": "exec1 " + execgen.fmt(case), "python": ans[:200]})
+    ctx.count("long_run_cases", len(longs))
     ctx.extra["disagreements"]["exec"] = dis
     ctx.extra["cases_without_spec"] = nospec
     ctx.samples = [{"case": lines[0][:200], "python": outs["py"][0][:200], "model": outs["model"][0][:200], "spec": outs["spec"][0][:200]}]
